@@ -392,24 +392,27 @@ impl Model for DefaultModel {
 
     fn to_text(&self) -> String {
         let mut token_patterns = HashMap::new();
-        let p_pattern = regex::Regex::new(r"^p_").unwrap();
-        let r_pattern = regex::Regex::new(r"^r_").unwrap();
 
-        for ptype in ["r", "p"] {
-            if let Some(assertion) = self.model.get(ptype) {
-                for token in &assertion[ptype].tokens {
-                    let new_token = p_pattern.replace_all(token, "p.");
-                    let new_token = r_pattern.replace_all(&new_token, "r.");
-                    token_patterns.insert(token.clone(), new_token.to_string());
-                }
-            }
-        }
-
-        if let Some(assertions) = self.model.get("e") {
-            if let Some(assertion) = assertions.get("e") {
-                if assertion.value.contains("p_eft") {
-                    token_patterns
-                        .insert("p_eft".to_string(), "p.eft".to_string());
+        // every request / policy definition (r, r2, p, p2, ...) contributes
+        // its own tokens: `r2_sub` is written back as `r2.sub`
+        for sec in ["r", "p"] {
+            if let Some(assertions) = self.model.get(sec) {
+                for (key, assertion) in assertions {
+                    let prefix = format!("{}_", key);
+                    for token in &assertion.tokens {
+                        if let Some(name) = token.strip_prefix(&prefix) {
+                            token_patterns.insert(
+                                token.clone(),
+                                format!("{}.{}", key, name),
+                            );
+                        }
+                    }
+                    if sec == "p" {
+                        token_patterns.insert(
+                            format!("{}_eft", key),
+                            format!("{}.eft", key),
+                        );
+                    }
                 }
             }
         }
@@ -418,12 +421,12 @@ impl Model for DefaultModel {
 
         let write_string = |sec: &str, s: &mut String| {
             if let Some(assertions) = self.model.get(sec) {
-                for (_ptype, assertion) in assertions {
+                for (ptype, assertion) in assertions {
                     let mut value = assertion.value.clone();
                     for (token_pattern, new_token) in &token_patterns {
                         value = value.replace(token_pattern, new_token);
                     }
-                    s.push_str(&format!("{} = {}\n", sec, value));
+                    s.push_str(&format!("{} = {}\n", ptype, value));
                 }
             }
         };
